@@ -5,6 +5,12 @@ Implementation: codebasin.config.ArgumentParser(argv0).parse_args(argv) (the cal
 Model (Lean):   CbiVerif.Argparse.argparseModel (argparse subset driven by Generated/ArgTable.lean),
                 CbiVerif.Shlex.commandArguments                                   driver op "c11"
 Spec (Lean):    CbiVerif.Extract.extract / classes / Tame, CbiVerif.ShellQuote.shellJoin  (same op)
+Full model:     CbiVerif.ArgparseFull.fullModel (`_parse_known_args` as written: O/A/- pattern, consume_positionals with
+                the `file` positional, consume_optional, extras, class of abort)           driver op "c11full"
+                compared with what the real `parser.parse_known_args` call returns (four lists separately,
+                namespace.file, extras) on every vector of every stream of the fixed option table; on the random and
+                realistic streams plain positionals are inserted at a place where the model is not waiting for a
+                required argument (theorem C11Full.positionals_never_disturb) and the real parser must return the same lists.
 
 Streams
   exhaustive  every vector of <= L elements over a catalogue of real gcc/clang/icx/nvcc flags, the modelled
@@ -250,21 +256,50 @@ class Impl:
         self.cb = codebasin
         self.config = config
         self.devnull = open(os.devnull, "w")
+        self.last_full = None
+        # observe everything the parser call returns (the code only logs `unrecognized` and drops `file`)
+        impl = self
+        if not getattr(argparse.ArgumentParser.parse_known_args, "_c11_wrapped", False):
+            orig = argparse.ArgumentParser.parse_known_args
+
+            def wrapped(parser, args=None, namespace=None):
+                ns, extras = orig(parser, args, namespace)
+                try:
+                    Impl.captured = {
+                        "defines": list(ns.defines), "include_paths": list(ns.include_paths),
+                        "system_include_paths": list(ns.system_include_paths), "include_files": list(ns.include_files),
+                        "file": list(ns.file) if isinstance(getattr(ns, "file", None), list) else repr(getattr(ns, "file", None)),
+                        "extras": list(extras),
+                    }
+                except Exception as e:  # noqa
+                    Impl.captured = {"uncapturable": type(e).__name__}
+                return ns, extras
+
+            wrapped._c11_wrapped = True
+            argparse.ArgumentParser.parse_known_args = wrapped
+
+    captured = None
 
     def parse(self, argv0, argv):
         """all pass configurations, or the abort"""
         old = sys.stderr
         sys.stderr = self.devnull  # argparse prints its usage before SystemExit
+        Impl.captured = None
+        self.last_full = None
         try:
             cfgs = self.config.ArgumentParser(argv0).parse_args(list(argv))
         except argparse.ArgumentError:
+            self.last_full = {"exc": "ArgumentError"}
             return {"exc": "ArgumentError"}
         except SystemExit:
+            self.last_full = {"exc": "SystemExit"}
             return {"exc": "SystemExit"}
         except Exception as e:  # noqa
+            self.last_full = {"exc": type(e).__name__}
             return {"exc": type(e).__name__}
         finally:
             sys.stderr = old
+        self.last_full = {"ok": Impl.captured}
         return {"cfgs": [
             {"pass": c.pass_name, "defines": list(c.defines), "include_paths": list(c.include_paths), "include_files": list(c.include_files)}
             for c in cfgs]}
@@ -278,6 +313,11 @@ class Impl:
             return {"exc": "passes:" + ",".join(c["pass"] for c in r["cfgs"])}
         c = d[0]
         return {"ok": {"defines": c["defines"], "include_paths": c["include_paths"], "include_files": c["include_files"]}}
+
+    def parse_full(self, argv0, argv):
+        """what the `parser.parse_known_args` call inside parse_args returned, or the class of the abort"""
+        self.parse(argv0, argv)
+        return self.last_full
 
     def command_arguments(self, cmd):
         try:
@@ -311,6 +351,7 @@ class Acc:
         self.known = {}
         self.samples = []
         self.notes = []
+        self.full_ok = 0
 
     def problem(self, kind, what, case, extra=None):
         same = [i for i, p in enumerate(self.problems) if p[0] == kind]
@@ -330,8 +371,9 @@ UNKNOWN_ARGV0 = "/usr/bin/cc"  # basename is not a compiler CBI knows: exactly t
 def evaluate(impl, drv, acc, stream, argv, argv0=UNKNOWN_ARGV0, rng=None, reply=None):
     case = {"argv0": argv0, "argv": list(argv), "stream": stream}
     got = impl.parse_default(argv0, argv)
+    got_full = impl.last_full
     if reply is None and drv is not None:
-        reply = drv.ask({"op": "c11", "argv": list(argv), "argv0": argv0})
+        reply = drv.ask({"op": "c11full", "argv": list(argv), "argv0": argv0, "waits": rng is not None})
     classes = py_classes(argv)
     spec = py_extract(argv)
     if reply is not None:
@@ -356,6 +398,48 @@ def evaluate(impl, drv, acc, stream, argv, argv0=UNKNOWN_ARGV0, rng=None, reply=
     # (1) correspondence: implementation vs model
     if reply is not None and reply["model"] != got:
         acc.problem("corr", "c11", case, {"impl": got, "model": reply["model"]})
+    # (1b) the full model: four lists separately, namespace.file, extras, class of abort
+    if reply is not None and "full" in reply:
+        if reply["full"] != got_full:
+            acc.problem("corr", "c11full", case, {"impl": got_full, "model": reply["full"]})
+        elif "ok" in got_full:
+            f = got_full["ok"]
+            acc.full_ok += 1
+            # (1d) reference reading of the leftovers (Spec/Unrecognised.lean; statement C11Full.ExtrasAreExactlyUnrecognised,
+            # tested here, not proved): on a tame line the real extras / file are the unrecognised arguments / operands
+            if tame and "leftover" in reply:
+                acc.dist["leftover-oracle (tame, parsed)"] += 1
+                if reply["leftover"] != {"file": f["file"], "extras": f["extras"]}:
+                    acc.problem("corr", "c11full-leftover", case, {"impl": {"file": f["file"], "extras": f["extras"]}, "model": reply["leftover"]})
+            if f["extras"]:
+                acc.dist["full:extras non-empty"] += 1
+            if f["file"]:
+                acc.dist["full:file non-empty"] += 1
+            pat = reply.get("pattern")
+            if isinstance(pat, str) and f["file"] and any(x in f["extras"] for x in argv if not x.startswith("-")):
+                acc.dist["full:later positional -> extras"] += 1
+            if isinstance(pat, str) and "-" in pat:
+                acc.dist["full:pattern with --"] += 1
+        else:
+            acc.dist["full:abort " + got_full["exc"]] += 1
+        # (1c) C11Full.positionals_never_disturb on the real parser: plain positionals inserted where the model is not
+        # waiting for a required argument leave the four lists (and the class of the outcome) unchanged
+        if rng is not None and "waits" in reply:
+            places = [i for i, w in enumerate(reply["waits"]) if not w]
+            if places:
+                i = rng.choice(places)
+                ps = [rng.choice(["x.c", "", "dir/y z.cpp", "a=b", "@rsp", "o.o", "é.c"]) for _ in range(rng.randint(1, 3))]
+                argv2 = list(argv[:i]) + ps + list(argv[i:])
+                g2 = impl.parse_full(argv0, argv2)
+
+                def four(r):
+                    return {"exc": r["exc"]} if "exc" in r else {k: r["ok"][k] for k in ("defines", "include_paths", "system_include_paths", "include_files")}
+
+                acc.dist["positional-insertion"] += 1
+                if four(g2) != four(got_full):
+                    m2 = drv.ask({"op": "c11full", "argv": argv2, "argv0": argv0})["full"] if drv is not None else None
+                    acc.problem("corr", "c11full-positional-insertion", dict(case, inserted_at=i, inserted=ps, argv_with_positionals=argv2),
+                                {"impl": {"without": four(got_full), "with": four(g2)}, "model": {"with": m2, "theorem": "C11Full.positionals_never_disturb"}})
     # (2) property: implementation vs spec
     if got != {"ok": spec}:
         if "dangling" in classes:
@@ -418,7 +502,7 @@ def _wrun(task):
                 v.append(cat[x % n])
                 x //= n
             vecs.append(v)
-        replies = drv.batch([{"op": "c11", "argv": v, "argv0": UNKNOWN_ARGV0} for v in vecs]) if drv is not None else [None] * len(vecs)
+        replies = drv.batch([{"op": "c11full", "argv": v, "argv0": UNKNOWN_ARGV0} for v in vecs]) if drv is not None else [None] * len(vecs)
         for v, r in zip(vecs, replies):
             evaluate(impl, drv, acc, stream, v, reply=r)
     return acc
@@ -458,6 +542,7 @@ class CountSet:
 def merge(ctx, acc, distinct=True):
     ctx.evaluations += acc.evals
     ctx.dist.update(acc.dist)
+    ctx.extra["full_model_compared_ok_outcomes"] = ctx.extra.get("full_model_compared_ok_outcomes", 0) + acc.full_ok
     if distinct:
         ctx.nontrivial.bump(acc.nontrivial)
     st = ctx.extra.setdefault("tame_rate", {})
@@ -778,6 +863,9 @@ def run(ctx, drv):
         f"<= 4 over {len(catalogue_mini())} elements, one of every kind (thorough); item-structured random vectors up to 40 elements; "
         "cmake-like realistic lines; the same under the compilers CBI knows; compile_commands.json entries in both forms. "
         "Each vector is also rendered as a shell-quoted command string (4 quoting styles) and split by CompileCommand. "
+        "On every vector of the fixed-table streams the real parser.parse_known_args result (four lists separately, namespace.file, extras, "
+        "class of abort) is compared with the full Lean model of _parse_known_args (op c11full); on the random/realistic streams plain "
+        "positionals are inserted at a place where the model is not inside a flag/value pair and the real parser must return the same lists. "
         "Non-trivial = the implementation returns a configuration, the line contains at least one modelled value and at least one other argument."
     )
     ctx.assumptions += [
@@ -875,8 +963,17 @@ def replay(ctx, drv, case):
     out["command"] = cmd
     out["implementation_split"] = impl.command_arguments(cmd)
     if drv is not None:
-        r = drv.ask({"op": "c11", "argv": argv, "argv0": argv0, "views": True})
+        r = drv.ask({"op": "c11full", "argv": argv, "argv0": argv0, "views": True, "waits": True})
         out["model"] = r["model"] if not known else "(the Lean model covers the fixed option table only)"
+        if not known:
+            out["implementation_parse_known_args"] = impl.parse_full(argv0, argv)
+            out["full_model"] = r.get("full")
+            out["pattern"] = r.get("pattern")
+            out["waits_for_value_after_prefix"] = r.get("waits")
+        if case.get("argv_with_positionals"):
+            a2 = case["argv_with_positionals"]
+            out["with_positionals"] = {"argv": a2, "implementation_parse_known_args": impl.parse_full(argv0, a2),
+                                       "full_model": drv.ask({"op": "c11full", "argv": a2, "argv0": argv0}).get("full")}
         out["lean_spec"] = r["spec"]
         out["lean_classes"] = r["classes"]
         out["tame"] = r["tame"]
